@@ -486,7 +486,7 @@ func checkSeq(scen string, in In) ([]*mc.Violation, []Outcome) {
 
 func Replay(scenario string, raw json.RawMessage) []*mc.Violation {
 	var in In
-	if err := json.Unmarshal(raw, &in); err != nil {
+	if err := mc.UnmarshalInput(raw, &in); err != nil {
 		return nil
 	}
 	if in.Orders {
